@@ -38,7 +38,11 @@ class LineCurve(AnalyticCurve):
         self.point_1 = Point(point_1)
         self.point_2 = Point(point_2)
 
-        super().__init__(lambda t: self.point_1.position + self.vector * t, bounds)
+        # a bound method (and not a lambda) so that a copy of this curve evaluates its own points
+        super().__init__(self._get_line_point, bounds)
+
+    def _get_line_point(self, t: float) -> NPVectorType:
+        return self.point_1.position + self.vector * t
 
     @property
     def vector(self) -> NPVectorType:
@@ -71,7 +75,11 @@ class CircleCurve(AnalyticCurve):
         normal = f.unit_vector(normal)
         self.atop = Point(origin + normal)
 
-        super().__init__(lambda t: f.rotate(self.rim.position, t, self.normal, self.origin.position), bounds)
+        # a bound method (and not a lambda) so that a copy of this curve evaluates its own points
+        super().__init__(self._get_circle_point, bounds)
+
+    def _get_circle_point(self, t: float) -> NPVectorType:
+        return f.rotate(self.rim.position, t, self.normal, self.origin.position)
 
     @property
     def normal(self) -> NPVectorType:
